@@ -36,7 +36,8 @@ TECHNIQUE = ("deterministic two-thread baton scheduler (sys.settrace line events
              "linearisability by differential against all serial orders of the same step")
 RULE = ("Hypothesis draws a scenario = (method with slow commands, waits, thresholds, watches/alarms, blocks; input "
         "trajectory; Start + 0..N prefix ticks with optional earlier requests; 1-2 requests of kind method edit / inject / "
-        "control command / cancel / force, payload resolved against the prefix state; N post ticks). Per scenario the tick "
+        "control command / cancel / force, payload resolved against the prefix state - a cancel/force asking for an eligible run-log "
+        "item extends the prefix by up to 12 ticks until one exists; N post ticks). Per scenario the tick "
         "is profiled once (event count and phase of every pre-emption point) and schedules of 0-4 switch positions are "
         "derived from drawn numbers (first switch stratified over the distinct source locations of the tick, over its phases, "
         "over the phase boundaries, or uniform); the thorough tier additionally enumerates every single-switch position of "
@@ -64,8 +65,6 @@ TIERS = {
 }
 NSHARDS = 16
 
-# KNOWN-FINDING switches: see the final section of run_shard (none active by default)
-
 CONTROL = ["Pause", "Unpause", "Hold", "Unhold", "Stop", "Restart", "Start"]
 USER_UOD = ["Open1", "Open2"]
 INJECT = ["Mark: j1", "Quick: j2", "Slow: 2.901", "Slow: 3.902", "Set1: 5.903", "Flow: 3.904 L/h", "Wait: 0.2s\nMark: j5",
@@ -73,6 +72,7 @@ INJECT = ["Mark: j1", "Quick: j2", "Slow: 2.901", "Slow: 3.902", "Set1: 5.903", 
           "Watch: In1 > 1 L/h\n    Mark: j9", "Stop", "Open1", "Bad", "Foo: 1", "Mark j10 no colon :::"]
 EDIT_TEXT = ["Mark: e%d", "Quick: e%d", "Slow: 2.%03d", "Wait: 0.2s", "Set2: 4.%03d", "Pause: 0.2s", "# e%d", "", "Info: e%d",
              "0.3 Mark: e%d", "OvA: 2.%03d"]
+MAX_EXTRA = 12      # a cancel/force request for an eligible item may extend the prefix by up to this many ticks
 UUID_RE = re.compile(r"[0-9a-f]{8}-[0-9a-f]{4}-[0-9a-f]{4}-[0-9a-f]{4}-[0-9a-f]{12}")
 
 
@@ -115,9 +115,9 @@ def scenarios(draw, cfg):
     post = draw(st.integers(cfg["post"][0], cfg["post"][1]))
     traj = draw(G.trajectory(pre + 1 + post, max_changes=4))
     pre_ops = []
-    if pre > 0 and draw(st.integers(0, 2)) == 0:
+    if pre > 0 and draw(st.integers(0, 1)) == 0:
         for _ in range(draw(st.integers(1, 2))):
-            r = draw(request())
+            r = draw(st.one_of(request(), st.sampled_from(["Pause", "Hold", "Pause", "Hold", "Stop"]).map(lambda n: {"k": "control", "name": n})))
             if r["k"] != "method":
                 pre_ops.append([draw(st.integers(0, pre - 1)), r])
         pre_ops.sort(key=lambda x: x[0])
@@ -275,15 +275,8 @@ class Exec:
                         cur[i] = [cur[i][0], _edit_text(op[2], n_new, indent)]
             return AM.MethodMsg(method=Mdl.Method(lines=[Mdl.MethodLine(id=i, content=c) for i, c in cur],
                                                   version=e.method_manager._method.version + 1))
-        try:
-            items = self._runlog_items()
-        except Exception:    # the run log of the prefix state cannot be produced (C15's subject): nothing a user could pick from
-            self.prefix_problem = "runlog-raised"
-            items = []
-        if k == "cancel":
-            elig = [i for i in items if i["cancellable"] and not i["cancelled"] and i["end"] is None]
-        else:
-            elig = [i for i in items if i["forcible"] and not i["forced"] and i["end"] is None]
+        elig = self._eligible_items(k)     # (sets prefix_problem when the run log of the prefix state cannot be produced)
+        items = [] if self.prefix_problem else self._runlog_items()
         pool = elig if (req["pref"] == "eligible" and elig) else items
         if req["pref"] == "bogus" or not pool:
             exec_id = "00000000-0000-0000-0000-00000000dead"
@@ -299,17 +292,35 @@ class Exec:
         o = h.tick()
         if o.raised is not None:
             self.prefix_problem = "tick-raised"
+        self.k = 0                       # prefix ticks after the Start tick
         for k in range(s["pre"]):
             for at, req in s["pre_ops"]:
                 if at == k:
                     self.send(self.build_msg(req))
-            h.set_inputs(**G.traj_at(s["traj"], k + 1))
-            o = h.tick()
-            if o.raised is not None:
-                self.prefix_problem = "tick-raised"
+            self._prefix_tick()
+        # a cancel/force request that asks for an eligible run-log item: tick on (at most MAX_EXTRA ticks) until there is one
+        want = [r["k"] for r in s["reqs"][:1] if r["k"] in ("cancel", "force") and r["pref"] == "eligible"]
+        while want and self.k < s["pre"] + MAX_EXTRA and not self.prefix_problem and not self._eligible_items(want[0]):
+            self._prefix_tick()
         self.msgs = [self.build_msg(r) for r in s["reqs"]]
         self.elig = [self._eligibility(r, m) for r, m in zip(s["reqs"], self.msgs)]
         return self
+
+    def _prefix_tick(self):
+        self.k += 1
+        self.h.set_inputs(**G.traj_at(self.scen["traj"], self.k))
+        if self.h.tick().raised is not None:
+            self.prefix_problem = "tick-raised"
+
+    def _eligible_items(self, kind):
+        try:
+            items = self._runlog_items()
+        except Exception:    # C15's subject; the scenario is skipped
+            self.prefix_problem = "runlog-raised"
+            return []
+        if kind == "cancel":
+            return [i for i in items if i["cancellable"] and not i["cancelled"] and i["end"] is None]
+        return [i for i in items if i["forcible"] and not i["forced"] and i["end"] is None]
 
     def _eligibility(self, req, msg):
         if self.prefix_problem:
@@ -323,7 +334,7 @@ class Exec:
     # -- the step ----------------------------------------------------------------------------------------------------
     def _begin_step(self):
         h, s = self.h, self.scen
-        h.set_inputs(**G.traj_at(s["traj"], s["pre"] + 1))
+        h.set_inputs(**G.traj_at(s["traj"], self.k + 1))
         h.tick_no += 1
         self.H.VT.now = self.H.VT.now + h.interval
         self.ev0 = len(h.events)
@@ -409,7 +420,7 @@ class Exec:
         obs["after_step"] = self.snap()
         post = []
         for k in range(self.scen["post"]):
-            h.set_inputs(**G.traj_at(self.scen["traj"], self.scen["pre"] + 2 + k))
+            h.set_inputs(**G.traj_at(self.scen["traj"], self.k + 2 + k))
             n0 = len(h.events)
             o = h.tick()
             post.append({"raised": None if o.raised is None else [type(o.raised).__name__, str(o.raised)[:200]],
@@ -656,10 +667,51 @@ def _valid_req(r):
         r.get("pref") in ("eligible", "any", "bogus")
 
 
+_KINDS = {"mark", "quick", "slow", "ova", "ovb", "set", "wait", "block", "watch", "alarm", "pause", "hold", "blank", "comment", "info"}
+
+
+def _num(x, lo, hi):
+    return isinstance(x, (int, float)) and not isinstance(x, bool) and lo <= x <= hi
+
+
+def _valid_nodes(nodes, depth) -> bool:
+    """the program tree stays inside what the generator of this module can produce (the shrinker mutates freely)"""
+    if not isinstance(nodes, list) or depth > 5:
+        return False
+    for n in nodes:
+        if not isinstance(n, dict) or n.get("k") not in _KINDS:
+            return False
+        k = n["k"]
+        if n.get("t") is not None and not _num(n["t"], 0, 3):
+            return False
+        if k in ("slow", "ova", "ovb") and not (isinstance(n.get("n"), int) and not isinstance(n["n"], bool) and 1 <= n["n"] <= 4):
+            return False
+        if k == "set" and not (n.get("reg") in (1, 2, 3) and isinstance(n.get("v"), int) and not isinstance(n["v"], bool) and 0 <= n["v"] <= 9):
+            return False
+        if k in ("wait", "pause", "hold") and not _num(n.get("d"), 0, 3):
+            return False
+        if k in ("watch", "alarm"):
+            c = n.get("cond")
+            if not (isinstance(c, dict) and c.get("tag") in G.UNITS_FOR and c.get("op") in G.OPS and _num(c.get("val"), 0, 20)
+                    and c.get("unit") in G.UNITS_FOR[c["tag"]]):
+                return False
+            if not n.get("c") or not _valid_nodes(n["c"], depth + 1):
+                return False
+        if k == "block":
+            if n.get("end") not in ("endblock", "endblocks") or (n.get("end_t") is not None and not _num(n["end_t"], 0, 3)):
+                return False
+            if not _valid_nodes(n.get("c", []), depth + 1):
+                return False
+    return True
+
+
 def _valid(case) -> bool:
     try:
         s = case["scen"]
         sw = case["sw"]
+        if not isinstance(s["tree"], dict) or s["tree"].get("base") not in ("s", None) or not s["tree"].get("body") \
+                or not _valid_nodes(s["tree"]["body"], 0):
+            return False
         if not isinstance(sw, list) or len(sw) > 4 or any(not isinstance(x, int) or isinstance(x, bool) or x < 0 for x in sw):
             return False
         if sw != sorted(sw) or len(set(sw)) != len(sw):
